@@ -75,7 +75,10 @@ fn lib_infer(dag: &[Node], fam: Fam, order: &[usize], program: bool) -> Result<V
                         let n = dag[j];
                         sub.push(Node { sym: n.sym, l: if n.sym.arity() >= 1 { idx[n.l as usize] as u8 } else { 0 }, r: if n.sym.arity() >= 2 { idx[n.r as usize] as u8 } else { 0 } });
                     }
-                    !sub.is_empty() && matches!(infer(&sub, fam, false), Infer::Err(_, crate::reference::unify::UErr::Occurs))
+                    // (the cycle may also be closed by the rejected call itself: then the reference reports an
+                    // occurs-check failure for the whole DAG)
+                    (!sub.is_empty() && matches!(infer(&sub, fam, false), Infer::Err(_, crate::reference::unify::UErr::Occurs)))
+                        || matches!(infer(dag, fam, program), Infer::Err(_, crate::reference::unify::UErr::Occurs))
                 };
                 let suffix = if cyclic { ":cyclic-constraints" } else { "" };
                 let again = guard(|| {
